@@ -65,7 +65,7 @@ RObj    == Rep("obj", 0, {})
 RErr(c) == Rep("err", 0, {c})
 RSet(s) == Rep("set", Cardinality(s), s)
 
-(* log records: what replaying the command needs to know *)
+(* log records: what replaying the command needs to know (x: the logged command carries EX) *)
 L(op, k, i, x) == [op |-> op, k |-> k, i |-> i, x |-> x]
 
 (* commands: [op, k, i, k2, nm, d] - all fields always there *)
@@ -115,7 +115,7 @@ CmdFset(S, c) ==
   LET o == S.cols[c.k][c.i] IN
   IF ~HasKey(S, c.k) THEN Res(S, RErr("nokey"), <<>>)
   ELSE IF ~o.p THEN Res(S, RErr("noid"), <<>>)
-  ELSE Res(SetFill(S, c.k, c.i, o, Dev = "KeepIdxOnOverwrite"), RInt(1), <<L("fset", c.k, c.i, o.x)>>)
+  ELSE Res(SetFill(S, c.k, c.i, o, Dev = "KeepIdxOnOverwrite"), RInt(1), <<L("fset", c.k, c.i, FALSE)>>)
 
 \* JSET key id path value: on a spatial object re-enters SET ... OBJECT (no EX), otherwise stores a string
 \* object with deadline 0 - the deadline is dropped either way (as coded)
@@ -305,16 +305,16 @@ Sweep ==
                nlog |-> Len(lgO) + Len(lgH)]
      /\ UNCHANGED <<now, nops>>
 
-DoOp(op) == \E c \in {d \in Commands : d.op = op} : Do(c)
-ASet == DoOp("set")
-AExpire == DoOp("expire")
-APersist == DoOp("persist")
-AFset == DoOp("fset")
-AJset == DoOp("jset")
-ADel == DoOp("del")
-ARename == DoOp("rename")
-ASetHook == DoOp("sethook")
-ADelHook == DoOp("delhook")
+\* one action per command (= per critical section of the code)
+ASet     == \E c \in {d \in Commands : d.op = "set"} : Do(c)
+AExpire  == \E c \in {d \in Commands : d.op = "expire"} : Do(c)
+APersist == \E c \in {d \in Commands : d.op = "persist"} : Do(c)
+AFset    == \E c \in {d \in Commands : d.op = "fset"} : Do(c)
+AJset    == \E c \in {d \in Commands : d.op = "jset"} : Do(c)
+ADel     == \E c \in {d \in Commands : d.op = "del"} : Do(c)
+ARename  == \E c \in {d \in Commands : d.op = "rename"} : Do(c)
+ASetHook == \E c \in {d \in Commands : d.op = "sethook"} : Do(c)
+ADelHook == \E c \in {d \in Commands : d.op = "delhook"} : Do(c)
 Next == ASet \/ AExpire \/ APersist \/ AFset \/ AJset \/ ADel \/ ARename \/ ASetHook \/ ADelHook \/ Tick \/ Sweep
 Spec == Init /\ [][Next]_vars
 
